@@ -16,31 +16,45 @@ import e3lib
 from e3lib import Drv, rd, parse_journal
 
 SLACK = 4.0
-CASES = [  # (limit, kind, command, must be killed)
-    (1, 'DURATION', 'sleep 8', True),
-    (2, 'DURATION', 'sleep 8', True),
-    (1, 'DTEND', 'sleep 8', True),
-    (2, 'DTEND', 'sleep 8', True),
-    (2, 'DURATION', 'sleep 0', False),
-    (2, 'DTEND', 'sleep 0', False),
+# a case is one echsx request stream: a list of (limit, kind, command, must be killed)
+CASES = [
+    [(1, 'DURATION', 'sleep 8', True)],
+    [(2, 'DURATION', 'sleep 8', True)],
+    [(1, 'DTEND', 'sleep 8', True)],
+    [(2, 'DTEND', 'sleep 8', True)],
+    [(2, 'DURATION', 'sleep 0', False)],
+    [(2, 'DTEND', 'sleep 0', False)],
+    # several requests in one stream: what one request leaves behind (handler, pending alarm) meets the next
+    [(1, 'DURATION', 'sleep 8', True), (1, 'DURATION', 'sleep 8', True)],
+    [(1, 'DTEND', 'sleep 8', True), (2, 'DURATION', 'sleep 0', False), (1, 'DURATION', 'sleep 8', True)],
+    [(2, 'DURATION', 'sleep 0', False), (1, 'DTEND', 'sleep 8', True), (1, 'DTEND', 'sleep 8', True)],
 ]
+QUICK = (0, 4, 6, 7)
 
 
 def run(base, idx, case, echsx, shim, chain):
-    L, kind, cmd, _ = case
     d = os.path.join(base, '%d' % idx)
     os.makedirs(d)
-    p = subprocess.run([chain, '--opt', 'mode=dump', '--opt', 'limit=%d' % L, '--opt', 'kind=' + kind, '--opt', 'cmd=' + cmd],
-                       stdout=subprocess.PIPE, stderr=subprocess.PIPE, cwd=d)
-    if p.returncode:
-        return {'err': 'c14_chain dump failed: %s' % p.stderr.decode('latin-1')[-300:]}
-    req = p.stdout
+    head, blocks, tail = None, [], None
+    for n, (L, kind, cmd, _) in enumerate(case):
+        p = subprocess.run([chain, '--opt', 'mode=dump', '--opt', 'limit=%d' % L, '--opt', 'kind=' + kind, '--opt', 'cmd=' + cmd],
+                           stdout=subprocess.PIPE, stderr=subprocess.PIPE, cwd=d)
+        if p.returncode:
+            return {'err': 'c14_chain dump failed: %s' % p.stderr.decode('latin-1')[-300:]}
+        txt = p.stdout.decode('latin-1')
+        i, j = txt.find('BEGIN:VTODO'), txt.find('END:VTODO')
+        if i < 0 or j < 0:
+            return {'err': 'c14_chain dump holds no VTODO'}
+        j += len('END:VTODO\n')
+        head, tail = head or txt[:i], txt[j:]
+        blocks.append(txt[i:j].replace('UID:c14-limit', 'UID:c14-limit-%d' % n))
+    req = (head + ''.join(blocks) + tail).encode('latin-1')
     env = {'LD_PRELOAD': shim, 'E3_LOG': os.path.join(d, 'shim.log'), 'PATH': '/usr/bin:/bin'}
     with open(os.path.join(d, 'journal'), 'wb') as fo, open(os.path.join(d, 'echsx.err'), 'wb') as fe:
         try:
-            q = subprocess.run([echsx, '-v'], input=req, stdout=fo, stderr=fe, cwd=d, env=env, timeout=60)
+            q = subprocess.run([echsx, '-v'], input=req, stdout=fo, stderr=fe, cwd=d, env=env, timeout=90)
         except subprocess.TimeoutExpired:
-            return {'err': 'echsx did not finish within 60 s', 'req': req}
+            return {'err': 'echsx did not finish within 90 s', 'req': req}
     j = parse_journal(rd(os.path.join(d, 'journal')))
     return {'req': req, 'rc': q.returncode, 'journal': j, 'shim': (rd(os.path.join(d, 'shim.log')) or b'').decode('latin-1')}
 
@@ -49,6 +63,7 @@ def main():
     D = Drv()
     echsx = D.opt('echsx', '/repo/src/echsx')
     bdir = D.opt('bdir', os.path.join(e3lib.V, 'build', 'plain', 'exec'))
+    quick = D.opt('set', 'all') == 'quick'
     shim, chain = os.path.join(bdir, 'echsx_shim.so'), os.path.join(bdir, 'c14_chain')
     for f in (echsx, shim, chain):
         if not os.path.exists(f):
@@ -57,7 +72,7 @@ def main():
     base = tempfile.mkdtemp(prefix='e3t_', dir='/tmp')
     todo = []
     for i, c in enumerate(CASES):
-        if D.next():
+        if D.next() and (not quick or i in QUICK or D.only >= 0):
             todo.append((D.idx, c))
     try:
         with cf.ThreadPoolExecutor(max_workers=len(CASES)) as ex:
@@ -72,39 +87,41 @@ def main():
 
 
 def judge(D, case, r):
-    L, kind, cmd, must = case
     lim = [l for l in (r.get('req') or b'').decode('latin-1').split('\n') if l.startswith(('DURATION', 'DUE'))]
-    D.desc('real run: `%s\' under a %d s limit given as %s; echsd hands echsx %s' % (cmd, L, kind, lim or 'no limit line'))
+    D.desc('real run of one echsx request stream: %s; echsd hands echsx %s' % (
+        ', then '.join("`%s' under a %d s limit given as %s" % (cmd, L, kind) for L, kind, cmd, _ in case), lim or 'no limit line'))
+    pos = 'single' if len(case) == 1 else 'stream'
     if r.get('err'):
         D.viol('rt/harness', r['err'])
         return
-    j = r['journal']
+    js = r['journal']
     alarms = re.findall(r'^alarm (\d+)$', r['shim'], re.M)
-    if len(j) != 1:
-        D.viol('rt/journal', '%d journal entries' % len(j))
+    if len(js) != len(case):
+        D.viol('rt/journal/%s' % pos, '%d journal entries for %d requests, echsx exit status %s' % (len(js), len(case), r.get('rc')))
         return
-    j = j[0]
-    m = re.match(r'^(\d+\.\d+)s$', j.get('X-REAL-TIME', ''))
-    real = float(m.group(1)) if m else None
-    sig = j.get('X-SIGNAL')
-    # no measured numbers in `what': the detail of a violation must be the same on every replay
-    what = 'X-EXIT-STATUS:%s X-SIGNAL:%s, alarm() calls %s' % (j.get('X-EXIT-STATUS'), sig, alarms)
-    if real is None:
-        D.viol('rt/journal', 'no X-REAL-TIME in journal: %r' % j)
-    elif must:
-        if sig is None:
-            D.viol('rt/not-killed/%s' % kind, 'job outlived its %d s limit and ran to its own end (%s s): %s' % (
-                L, 'about 8' if real >= 7.5 else 'less than 7.5', what))
-        elif real < L - 0.1:
-            D.viol('rt/early/%s' % kind, 'job killed before its %d s limit: %s' % (L, what))
-        elif real > L + SLACK:
-            D.viol('rt/late/%s' % kind, 'job killed more than %.0f s after its %d s limit: %s' % (SLACK, L, what))
-    else:
-        if sig is not None or j.get('X-EXIT-STATUS') != '0':
-            D.viol('rt/harmed/%s' % kind, 'job finishing before its %d s limit did not end normally: %s' % (L, what))
+    for n, ((L, kind, cmd, must), j) in enumerate(zip(case, js)):
+        m = re.match(r'^(\d+\.\d+)s$', j.get('X-REAL-TIME', ''))
+        real = float(m.group(1)) if m else None
+        sig = j.get('X-SIGNAL')
+        where = pos if n == 0 else 'later-request'
+        # no measured numbers in `what': the detail of a violation must be the same on every replay
+        what = 'request %d: X-EXIT-STATUS:%s X-SIGNAL:%s, alarm() calls %s' % (n + 1, j.get('X-EXIT-STATUS'), sig, alarms)
+        if real is None:
+            D.viol('rt/journal/%s' % where, 'no X-REAL-TIME in journal: %r' % j)
+        elif must:
+            if sig is None:
+                D.viol('rt/not-killed/%s/%s' % (kind, where), 'job outlived its %d s limit and ran to its own end (%s s): %s' % (
+                    L, 'about 8' if real >= 7.5 else 'less than 7.5', what))
+            elif real < L - 0.1:
+                D.viol('rt/early/%s/%s' % (kind, where), 'job killed before its %d s limit: %s' % (L, what))
+            elif real > L + SLACK:
+                D.viol('rt/late/%s/%s' % (kind, where), 'job killed more than %.0f s after its %d s limit: %s' % (SLACK, L, what))
+        else:
+            if sig is not None or j.get('X-EXIT-STATUS') != '0':
+                D.viol('rt/harmed/%s/%s' % (kind, where), 'job finishing before its %d s limit did not end normally: %s' % (L, what))
+        D.sample('`%s\' under %d s as %s (request %d of %d): ran %s s' % (cmd, L, kind, n + 1, len(case), real))
     D.nontrivial()
     D.count('rt_runs')
-    D.sample('`%s\' under %d s as %s: ran %s s, %s' % (cmd, L, kind, real, what))
 
 
 if __name__ == '__main__':
